@@ -9,7 +9,7 @@
 //! killed process (process crash, not power loss).
 use crate::p_raftsm::{entries_words, lid, mk_lid, mk_vote, rt, AnyStore, Ent, Gen, Scratch, SnapReg};
 use crate::util::{catch, Ctx};
-use crate::with_store;
+use crate::p_raftsm::with_store;
 use openraft::storage::RaftStorage;
 use openraft::{LogId, RaftLogReader, Vote};
 use std::collections::BTreeMap;
@@ -264,7 +264,7 @@ fn scenario(ctx: &mut Ctx, scratch: &mut Scratch, len: u64, steps: u64, all_poin
 pub fn run(ctx: &mut Ctx, _name: &str) {
     std::panic::set_hook(Box::new(|_| {}));
     let mut scratch = Scratch::new();
-    let n = if ctx.thorough { 260 } else { 36 };
+    let n = if ctx.thorough { 200 } else { 14 };
     for i in 0..n {
         let len = 2 + ctx.rng.below(if ctx.thorough { 14 } else { 8 });
         let steps = 4 + ctx.rng.below(if ctx.thorough { 22 } else { 12 });
